@@ -332,7 +332,17 @@ func c17r3(p *Program, r *Report) {
 		for _, u := range p.unitsOf(fi) {
 			ast.Inspect(u.Decl.Body, func(x ast.Node) bool {
 				ifs, ok := x.(*ast.IfStmt)
-				if !ok || !p.isField(info, ifs.Cond, "hostConnPool", "closed") {
+				if !ok {
+					return true
+				}
+				cond := ast.Unparen(ifs.Cond)
+				if id, isId := cond.(*ast.Ident); isId {
+					// a local that captured pool.closed under the lock
+					if d := localDef(info, u, id); d != nil && singleAssigned(info, u.Decl.Body, info.Uses[id]) {
+						cond = ast.Unparen(d)
+					}
+				}
+				if !p.isField(info, cond, "hostConnPool", "closed") {
 					return true
 				}
 				found = true
@@ -343,7 +353,7 @@ func c17r3(p *Program, r *Report) {
 					}
 					return true
 				})
-				r.Check(closes && p.terminates(info, ifs.Body.List), ifs, "(*hostConnPool).connect closes a connection that arrives after Close", "late connection closed and not added",
+				r.Check(closes, ifs, "(*hostConnPool).connect closes a connection that arrives after Close", "late connection closed (that it is not added is the append's own obligation)",
 					"when the pool was closed meanwhile the new connection is not closed (or is still added): a connection outlives its pool")
 				return true
 			})
@@ -565,6 +575,31 @@ func c17r5(p *Program, r *Report) {
 			return true
 		})
 	}
+	// captured: locals that hold the value isClosing had before it was set (read under the state mutex)
+	captured := map[string]bool{}
+	ast.Inspect(fi.Decl.Body, func(n ast.Node) bool {
+		as, ok := n.(*ast.AssignStmt)
+		if !ok || len(as.Lhs) != len(as.Rhs) || as.Tok != token.DEFINE {
+			return true
+		}
+		for i, l := range as.Lhs {
+			if id, isId := l.(*ast.Ident); isId && p.isField(info, as.Rhs[i], "Session", "isClosing") && singleAssigned(info, fi.Decl.Body, info.Defs[id]) {
+				if ls, _ := locks.Before(as); ls[exprStr(ast.Unparen(as.Rhs[i]).(*ast.SelectorExpr).X)+".sessionStateMu"] {
+					captured[id.Name] = true
+				}
+			}
+		}
+		return true
+	})
+	earlyOut := func(at ast.Node) bool { // a captured previous value is known true here: somebody else is closing
+		f, _ := facts.Before(at)
+		for c := range captured {
+			if v, known := f.m[c]; known && v {
+				return true
+			}
+		}
+		return false
+	}
 	ast.Inspect(fi.Decl.Body, func(n ast.Node) bool {
 		as, ok := n.(*ast.AssignStmt)
 		if !ok {
@@ -577,6 +612,58 @@ func c17r5(p *Program, r *Report) {
 				ls, _ := locks.Before(as)
 				root := exprStr(ast.Unparen(l).(*ast.SelectorExpr).X)
 				v, known := f.KnownStr(root + ".isClosing")
+				if !(known && !v) && len(captured) > 0 && ls[root+".sessionStateMu"] {
+					// exchange form: previous value captured in the same critical section, flag set unconditionally,
+					// and every teardown step runs only where the captured value is known false
+					same := true
+					for c := range captured {
+						id := identNamed(fi, c)
+						if id == nil {
+							same = false
+							continue
+						}
+						var defStmt ast.Node
+						ast.Inspect(fi.Decl.Body, func(m ast.Node) bool {
+							if d, isAs := m.(*ast.AssignStmt); isAs && d.Tok == token.DEFINE {
+								for _, dl := range d.Lhs {
+									if did, isId := dl.(*ast.Ident); isId && info.Defs[did] == info.Uses[id] {
+										defStmt = d
+									}
+								}
+							}
+							return true
+						})
+						if defStmt == nil || defStmt.Pos() > as.Pos() || !sameCriticalSection(p, fi, defStmt, as, root+".sessionStateMu") {
+							same = false
+						}
+					}
+					guarded := true
+					for _, c := range callsIn(fi.Decl.Body) {
+						comp := ""
+						if rx := recvExpr(c); rx != nil {
+							comp = isComp(rx)
+						}
+						if comp == "" {
+							comp = isComp(c.Fun)
+						}
+						if comp == "" {
+							continue
+						}
+						cf, _ := facts.Before(p.stmtOf(c, fi))
+						okC := false
+						for cname := range captured {
+							if cv, ck := cf.m[cname]; ck && !cv {
+								okC = true
+							}
+						}
+						if !okC {
+							guarded = false
+						}
+					}
+					if same && guarded {
+						known, v = true, false
+					}
+				}
 				r.Check(ls[root+".sessionStateMu"] && known && !v, as, "(*Session).Close test-and-set of isClosing", "isClosing tested false and set true in one critical section",
 					"isClosing is set without having been tested false in the same critical section: two overlapping Close calls both run the teardown (the event debouncers' stop() is once-only: send on closed channel)")
 			}
@@ -602,6 +689,9 @@ func c17r5(p *Program, r *Report) {
 		s, ok := ef.ExitState(e)
 		if !ok || e.Kind == ExitPanic || !s.Must["setClosing"] {
 			continue
+		}
+		if e.Node != nil && earlyOut(e.Node) {
+			continue // the flag was already set before this call: the first closer does the teardown
 		}
 		for _, c := range components {
 			r.Check(s.Must["done:"+c], e.Node, "(*Session).Close exit "+exitDesc(p, e)+" stops "+c, "stopped (or nil) on every path", "a path through Close returns without stopping s."+c+": its goroutines/connections outlive the session")
@@ -713,8 +803,32 @@ func c17r8(p *Program, r *Report) {
 			return false
 		}
 		ef := g.Events(func(st Step) []string {
-			if st.Kind == StNode && stops(st.Node) {
-				return []string{"stopBroadcaster"}
+			if st.Kind == StNode {
+				// a helper that stops it is summarised by the event analysis itself; only direct calls count here
+				for _, c := range callsIn(st.Node) {
+					if calleeName(info, c) == "(*errorBroadcaster).stop" {
+						return []string{"stopBroadcaster"}
+					}
+				}
+				if _, isExpr := st.Node.(ast.Expr); !isExpr && stops(st.Node) {
+					if _, isIf := st.Node.(*ast.IfStmt); !isIf {
+						return []string{"stopBroadcaster"}
+					}
+				}
+			}
+			if st.Kind == StCond {
+				// no broadcaster registered: nothing to release
+				if b, ok := ast.Unparen(st.Node.(ast.Expr)).(*ast.BinaryExpr); ok && (b.Op == token.NEQ || b.Op == token.EQL) {
+					var f ast.Expr
+					if isNil(info, b.Y) {
+						f = b.X
+					} else if isNil(info, b.X) {
+						f = b.Y
+					}
+					if f != nil && p.isField(info, f, "refreshDebouncer", "broadcaster") && st.Val == (b.Op == token.EQL) {
+						return []string{"stopBroadcaster"}
+					}
+				}
 			}
 			return nil
 		})
@@ -732,4 +846,34 @@ func c17r8(p *Program, r *Report) {
 			r.Unresolved("flusher has no exit")
 		}
 	}
+}
+
+// sameCriticalSection: b follows a in the same statement list and the mutex is not released between them.
+func sameCriticalSection(p *Program, fi *FuncInfo, a, b ast.Node, mu string) bool {
+	pa, ok1 := p.Parent(a).(*ast.BlockStmt)
+	pb, ok2 := p.Parent(b).(*ast.BlockStmt)
+	if !ok1 || !ok2 || pa != pb {
+		return false
+	}
+	info := fi.Pkg.TypesInfo
+	in := false
+	for _, st := range pa.List {
+		if st == a {
+			in = true
+			continue
+		}
+		if st == b {
+			return in
+		}
+		if in {
+			for _, c := range callsIn(st) {
+				if kind, ok := isMutexMethod(calleeName(info, c)); ok && (kind == "Unlock" || kind == "RUnlock") {
+					if rx := recvExpr(c); rx != nil && exprStr(rx) == mu {
+						return false
+					}
+				}
+			}
+		}
+	}
+	return false
 }
